@@ -52,6 +52,10 @@ class Engine:
         """yield smaller scenarios"""
         return iter(())
 
+    def finalize(self, scn, obs):
+        """record into the scenario whatever the first execution decided (explicit schedule choice lists)"""
+        return None
+
 
 def _worker_main(engine, profile, seed, indices, outpath, prop, deadline, opts):
     import faulthandler
@@ -72,6 +76,7 @@ def _worker_main(engine, profile, seed, indices, outpath, prop, deadline, opts):
                     scn['index'] = idx
                     scn['profile'] = profile
                     obs = engine.execute(scn, ctx)
+                    engine.finalize(scn, obs)
                     discs, stats, states = engine.judge(scn, obs)
                     rec.update(digest=digest(obs), stats=stats, states=states, nops=engine.size(scn), sdigest=digest(scn))
                     rec['discs'] = [{'prop': d['prop'], 'inv': d['inv'], 'msg': d['msg'], 'op': d.get('op')} for d in discs]
